@@ -24,7 +24,7 @@ P = "JanetModel.Props.C13."
 THEOREMS = [P + t for t in (
     "mul_chain_exact", "div_chain_exact", "neg_branch_at_least_4_digits", "msd_nonzero", "mant_estimate_sound",
     "scan_uint64_exact_or_rejected", "scan_int64_exact_or_rejected",
-    "extract_faithful_int", "extract_faithful_frac", "exact_when_representable", "within_one_ulp",
+    "extract_faithful_int", "extract_faithful_frac", "exact_when_representable", "within_one_ulp", "digit_table_correct", "ldexp_exact_normal",
 )]
 
 ENV = dict(os.environ, ASAN_OPTIONS="detect_leaks=0:abort_on_error=0", UBSAN_OPTIONS="print_stacktrace=1")
@@ -199,8 +199,12 @@ def run(ctx):
     quick = ctx.tier == "quick"
     broken = []
     # (A) regenerate
+    hflags = []
     try:
-        ctx.gen("Strtod.lean", gen_strtod.render(ctx.build.tree if ctx.build.boot() is None else ctx.build.tree))
+        ctx.build.boot()
+        ctx.gen("Strtod.lean", gen_strtod.render(ctx.build.tree))
+        _tab, _c, _l = gen_strtod.extract(ctx.build.tree)
+        hflags = ["-DC13_SHAMT_BASE=%d" % _c["shamtBase"], "-DC13_SHAMT_DIV=%d" % _c["shamtDiv"]]
     except ExtractError as e:
         broken.append("translator tools/gen/strtod.py: %s" % e)
         ctx.broken.append(broken[-1])
@@ -216,7 +220,7 @@ def run(ctx):
     # (D) correspondence + (E) oracle
     exe = ctx.driver()
     try:
-        hx = ctx.build.harness("asan", "c13scan", [os.path.join(VERIF, "harness/C13/scan.c")])
+        hx = ctx.build.harness("asan", "c13scan", [os.path.join(VERIF, "harness/C13/scan.c")], extra_cflags=hflags)
     except BuildError as e:
         hx = None
         broken.append("harness does not compile against the current tree: %s" % str(e)[-400:])
@@ -253,13 +257,17 @@ def run(ctx):
                 fails.append((c, a, why))
     # report: one violation per (kind, reason class), shortest input as replay
     seen = {}
+    import re as _re
+
+    def cls(w):
+        return _re.sub(r"\s+", " ", _re.sub(r"-?\b[0-9a-f]*\d[0-9a-f]*\b", "", w.split("(")[0])).strip()
     for c, a, why in fails:
         key = (c["kind"] if c["kind"] not in ("structured", "structured-hexp", "from-double", "long-edge", "odd-valid", "corpus") else "literal",
-               why.split("(")[0].strip())
+               cls(why))
         if key not in seen or len(c["line"]) < len(seen[key][0]["line"]):
             seen[key] = (c, a, why)
     for key, (c, a, why) in sorted(seen.items(), key=lambda kv: str(kv[0])):
-        n = sum(1 for c2, a2, w2 in fails if w2.split("(")[0].strip() == key[1])
+        n = sum(1 for c2, a2, w2 in fails if cls(w2) == key[1])
         rep = {"kind": "oracle", "case": {k: (v if not isinstance(v, int) or abs(v) < 2 ** 63 else str(v)) for k, v in c.items()}, "impl": a, "why": why, "count": n}
         ctx.violation("%s:%s" % key, rep, what="%s: %s  [%s -> %s]  (%d such cases)" % (key[0], why, (c.get("text") or c["line"])[:70], a, n))
     if not fails and not crashes and broken:
